@@ -34,8 +34,8 @@ Section Proofs.
   (* the direct stage of fetch, isolated so that the theorem below can talk about it *)
   Definition written (r : result) (b : list Z) : Prop := r_file r = Some b.
 
-  Theorem fetch_writes_only_matching mode hints local b :
-    r_file (fetch hash h mode hints local) = Some b -> hash b = h.
+  Theorem fetch_writes_only_matching mode expired hints local b :
+    r_file (fetch hash h mode expired hints local) = Some b -> hash b = h.
   Proof.
     unfold fetch.
     set (idx := combine (map Z.of_nat (seq 0 (length hints))) hints).
@@ -46,8 +46,8 @@ Section Proofs.
     - destruct ((mode =? 1) || (mode =? 2)); cbn [r_file]; [discriminate|].
       destruct (attempt_control hash h local) eqn:A; cbn [r_file]; try discriminate.
       intros H. inversion H; subst. apply (control_writes_matching _ _ A).
-    - assert (T : forall l t i c, first_ok (attempt_transport hash h) l = (t, Some (i, Wrote c)) -> hash c = h).
-      { intros l t i c F. destruct (first_ok_from _ _ _ _ _ F) as [x [_ [A _]]]. apply (transport_writes_matching _ _ A). }
+    - assert (T : forall l t i c, first_ok (if expired then (fun _ => Failed) else attempt_transport hash h) l = (t, Some (i, Wrote c)) -> hash c = h).
+      { intros l t i c F. destruct (first_ok_from _ _ _ _ _ F) as [x [_ [A _]]]. destruct expired; [discriminate | apply (transport_writes_matching _ _ A)]. }
       assert (C : forall l t i c, first_ok (attempt_control hash h) l = (t, Some (i, Wrote c)) -> hash c = h).
       { intros l t i c F. destruct (first_ok_from _ _ _ _ _ F) as [x [_ [A _]]]. apply (control_writes_matching _ _ A). }
       assert (L : forall tried, r_file (if (mode =? 1) || (mode =? 2) then mkResult 1 None (-1) tried false
@@ -65,7 +65,7 @@ Section Proofs.
         * destruct o2; cbn [r_file]; try discriminate. intros H. inversion H; subst. eapply C; exact F2.
         * destruct (first_ok (attempt_control hash h) fs) as [t3 [[i3 o3]|]] eqn:F3; [|apply L].
           destruct o3; cbn [r_file]; try discriminate. intros H. inversion H; subst. eapply C; exact F3.
-      + destruct (first_ok (attempt_transport hash h) ts) as [t1 [[i1 o1]|]] eqn:F1.
+      + destruct (first_ok (if expired then (fun _ => Failed) else attempt_transport hash h) ts) as [t1 [[i1 o1]|]] eqn:F1.
         * destruct o1; cbn [r_file]; try discriminate. intros H. inversion H; subst. eapply T; exact F1.
         * destruct (mode =? 2); [apply L|].
           destruct (first_ok (attempt_control hash h) cs) as [t2 [[i2 o2]|]] eqn:F2.
@@ -105,18 +105,18 @@ Section Proofs.
   Lemma empty_sh {A} l (a b : A) : match map sh l with [] => a | _ => b end = match l with [] => a | _ => b end.
   Proof. destruct l; reflexivity. Qed.
 
-  Theorem mismatch_is_refusal mode hints local :
-    fetch hash h mode (map soften_hint hints) (soften local) = fetch hash h mode hints local.
+  Theorem mismatch_is_refusal mode expired hints local :
+    fetch hash h mode expired (map soften_hint hints) (soften local) = fetch hash h mode expired hints local.
   Proof.
     unfold fetch. rewrite map_length, combine_map_sh, !filter_sh, !sort_prio_sh, <- map_app, !empty_sh.
-    rewrite !first_ok_sh by (first [apply attempt_transport_soften | apply attempt_control_soften]).
+    rewrite !first_ok_sh by (first [apply attempt_control_soften | destruct expired; [reflexivity | apply attempt_transport_soften]]).
     rewrite attempt_control_soften. reflexivity.
   Qed.
 End Proofs.
 
 (* with the project's SHA-256: whatever the endpoints return, a file that is written hashes to the hash of the stored payload *)
-Theorem file_matches_manifest P mode hints local b :
-  r_file (fetch sha256 (sha256 P) mode hints local) = Some b -> sha256 b = sha256 P.
+Theorem file_matches_manifest P mode expired hints local b :
+  r_file (fetch sha256 (sha256 P) mode expired hints local) = Some b -> sha256 b = sha256 P.
 Proof. apply fetch_writes_only_matching. Qed.
 
 (* the genuine payload is never refused *)
